@@ -109,6 +109,9 @@ def structures(tier, seed):
         out.append({"part": "metrics", "sid": f"metrics;axes={atag}", "names": list(names)})
         out.append({"part": "ufunc", "sid": f"ufunc;dummies={atag}", "names": list(names)})
         out.append({"part": "pad", "sid": f"pad-swap-link;axes={atag}", "names": list(names)})
+    for k, (entry, rules) in enumerate([({"X1": ["same", False]}, {"X": "extend", "Y": "fill"}), ({"X1": ["swap", False], "Y0": ["swap", False]}, {"X": "extend", "Y": "extend"}),
+                                        ({"X0": ["same", True], "Y1": ["same", False]}, {"X": "fill", "Y": "periodic"})]):
+        out.append({"part": "pad-corners", "sid": f"pad-corners;{k}", "entry": entry, "rules": rules})
     for tdim in ("s", "sigma", "rho_levels_x", "left_sigma", "TRANSFORMED_DIMENSION"):
         out.append({"part": "transform", "sid": f"transform;target_dim={tdim}", "tdim": tdim})
     for k, names in enumerate((("xi_psi", "xi_rho"), ("xi", "xi_rho"), ("n", "cn"), ("node", "node_center"), ("Xn", "xn"))):
@@ -346,6 +349,71 @@ def run_pad(s):
     return {"sid": s["sid"], "obligations": obs, "covers": covers, **stats}
 
 
+def run_pad_corners(s):
+    """relational: the FULL padded array (corner cells included) of a two-axis halo on a face-connected grid is the same
+    under every renaming of the axes - in particular under renamings that change the alphabetical order of the names"""
+    mods = util.xgcm_modules()
+    P = mods["padding"]
+    import xgcm.axis as AXM
+    from vp.mxr import MDataset
+    covers = {}
+    namings = [("X", "Y"), ("lon", "lat"), ("x", "Y"), ("b", "a"), ("outerX", "cent"), ("Y", "X")]
+    records = []
+    rep_all = None
+    entry = {(k[0], int(k[1])): tuple(v) for k, v in s["entry"].items()}
+    s5 = C05.mk(None, entry, ("X", "Y"), dict(s["rules"]))
+    for (A1, A2) in namings:
+        dn = {"x": f"{A1}_c", "xl": f"{A1}_g", "y": f"c{A2}", "yl": f"g{A2}", "face": "tile"}
+
+        def body():
+            b = C05.build(s5)
+            ren = lambda d: dn.get(d, d)  # noqa
+            g = b["grid"]
+            ds2 = MDataset({ren(d): v for d, v in {"x": b["N"], "xl": b["N"], "y": b["N"], "yl": b["N"], "face": b["F"]}.items()})
+            # the grid lists its axes in the order (role X, role Y) whatever they are called
+            g.axes = {A1: AXM.Axis(ds2, A1, {"center": dn["x"], "left": dn["xl"]}), A2: AXM.Axis(ds2, A2, {"center": dn["y"], "left": dn["yl"]})}
+            g._facedim = "tile"
+            tab = g._face_connections["face"]
+            amap = {"X": A1, "Y": A2}
+            tab.entry = {amap[a]: tuple(None if l is None else (l[0], amap[l[1]], l[2]) for l in lr) for a, lr in tab.entry.items()}
+            tab.conn_axes = [amap[a] for a in tab.conn_axes]
+            g._face_connections = {"tile": tab}
+            da = b["da"].rename({d: ren(d) for d in b["da"].dims})
+            W = {A1: b["W"]["X"], A2: b["W"]["Y"]}
+            out, err = guarded(lambda: P._pad_face_connections(da, g, W, {A1: s5["rules"]["X"], A2: s5["rules"]["Y"]},
+                                                                {A1: symx.SymFloat(b["fills"]["X"]), A2: symx.SymFloat(b["fills"]["Y"])}))
+            if err is not None:
+                return {"order": (A1, A2), "flags": {"exit": err.split(":")[0]}, "terms": {}}
+            covers["padded"] = covers.get("padded", 0) + 1
+            back = out.rename({ren(d): d for d in ("x", "xl", "y", "yl", "face") if ren(d) in out.dims})
+            gen = symx.ctx().ghost.get("generic")
+            q = {d: z3.Int(f"q_{d}") for d in back.dims}
+            q["face"] = gen[0]
+            rng = z3.And(*[z3.And(q[d] >= 0, q[d] < zint(back.sizes[d])) for d in back.dims if d != "face"])
+            return {"order": (A1, A2), "flags": {"exit": "return", "dims": tuple(sorted(back.dims))},
+                    "terms": {"value(every cell incl. corners)": z3.If(rng, back.elem(q), z3.RealVal(0)), **{f"size:{d}": zint(back.sizes[d]) for d in back.dims}}}
+        with util.patched(*util.std_patches(mods, sets=True)):
+            rep, recs = symx.explore_records(body, s["sid"])
+        records += recs
+        if rep_all is None:
+            rep_all = rep
+        else:
+            rep_all.paths += rep.paths
+            rep_all.queries += rep.queries
+            rep_all.solver_time += rep.solver_time
+            rep_all.engine_errors += rep.engine_errors
+    diffs, n = symx.compare_records(records)
+    failed = [d for d in diffs if d[0] == "failed"]
+    unknown = [d for d in diffs if d[0] == "unknown"]
+    st = "failed" if failed else ("unknown" if unknown else "proved")
+    rec = {"fn": "padding._pad_face_connections", "clause": "padded-array-incl-corners-independent-of-the-axis-names", "status": st, "time": 0,
+           "detail": f"{n} jointly feasible naming pairs compared" if st == "proved" else f"{(failed or unknown)[0][1]} differs between namings {(failed or unknown)[0][2]['order']} and {(failed or unknown)[0][3]['order']}"}
+    if failed:
+        rec["witness"] = {"part": "pad-corners", "namings": [list(failed[0][2]["order"]), list(failed[0][3]["order"])], "entry": s["entry"], "rules": s["rules"]}
+    return {"sid": s["sid"], "obligations": [rec], "paths": rep_all.paths, "queries": rep_all.queries, "solver_time": rep_all.solver_time, "engine_errors": rep_all.engine_errors, "covers": covers,
+            "counts": {"naming_pairs_compared": n}}
+
+
 def transform_scenario(w, tdim, method, explicit_target_dim):
     layout = {"Z": {"center": "z_c", "outer": "z_o"}}
     nz = w.size("n_Z", 2)
@@ -488,7 +556,7 @@ def run_tempname(s):
 
 
 def run_structure(s):
-    return {"ops": run_ops, "metrics": run_metrics, "ufunc": run_ufunc, "pad": run_pad, "transform": run_transform, "sgrid": run_parse, "comodo": run_parse,
+    return {"ops": run_ops, "metrics": run_metrics, "ufunc": run_ufunc, "pad": run_pad, "pad-corners": run_pad_corners, "transform": run_transform, "sgrid": run_parse, "comodo": run_parse,
             "tempname": run_tempname}[s["part"]](s)
 
 
@@ -574,9 +642,39 @@ def replay(ob):
                     return {"confirmed": False, "text": "accepted natively"}
                 except Exception as e:  # noqa
                     return {"confirmed": True, "text": f"grid.transform on data with an extra dimension called 'temp_unique' raised {type(e).__name__}: {e}"}
+        if part == "pad-corners":
+            return replay_corners(wit)
         if part == "pad":
             return {"confirmed": False, "text": f"padding across an axis-swapping link with axes named {wit['names'][:2]}: {wit.get('detail')} (symbolic run of the real code)"}
     except Exception as e:  # noqa
         import traceback
         return {"confirmed": False, "text": f"replay failed: {type(e).__name__}: {e}\n{traceback.format_exc(limit=-2)}"}
     return {"confirmed": False, "text": ""}
+
+
+def replay_corners(wit):
+    """real code: the same two-face padded array under two namings of the axes"""
+    import numpy as np
+    import xarray as xr
+    import xgcm
+    N = 3
+    rng = np.random.default_rng(0)
+    data = rng.random((2, N, N))
+    outs = []
+    for (A1, A2) in wit["namings"]:
+        dn = {"x": f"{A1}_c", "xl": f"{A1}_g", "y": f"c{A2}", "yl": f"g{A2}"}
+        ds = xr.Dataset(coords={**{d: np.arange(N) for d in dn.values()}, "tile": np.arange(2)})
+        g = xgcm.Grid(ds, coords={A1: {"center": dn["x"], "left": dn["xl"]}, A2: {"center": dn["y"], "left": dn["yl"]}}, periodic=False, autoparse_metadata=False)
+        amap = {"X": A1, "Y": A2}
+        tab = {0: {A1: [None, None], A2: [None, None]}, 1: {A1: [None, None], A2: [None, None]}}
+        for k, (lk, rev) in wit["entry"].items():
+            a, side = k[0], int(k[1])
+            sa = a if lk == "same" else C05.OTHER[a]
+            tab[0][amap[a]][side] = (1, amap[sa], bool(rev))
+        g._facedim = "tile"
+        g._face_connections = {"tile": {f: {a: tuple(v) for a, v in d.items()} for f, d in tab.items()}}
+        da = xr.DataArray(data, dims=("tile", dn["y"], dn["x"]))
+        out = xgcm.padding.pad(da, g, boundary_width={A1: (1, 2), A2: (2, 1)}, boundary={A1: wit["rules"]["X"], A2: wit["rules"]["Y"]}, fill_value={A1: 0.5, A2: -1.5})
+        outs.append(out.transpose("tile", dn["y"], dn["x"]).values)
+    same = outs[0].shape == outs[1].shape and np.allclose(outs[0], outs[1])
+    return {"confirmed": not same, "text": f"two-face grid, widths X (1,2), Y (2,1): padded arrays under axis names {wit['namings'][0]} and {wit['namings'][1]} " + ("are identical" if same else f"differ in {int((~np.isclose(outs[0], outs[1])).sum())} cells (corners)")}
